@@ -390,11 +390,26 @@ static int cmd_optable(void) {
     return 0;
 }
 
+/* asm <in.txt> <out.nvm>: assemble a text module with the tree's own assembler */
+static int cmd_asm(int argc, char **argv) {
+    if (argc < 2) return 3;
+    uint32_t sz; char *txt = (char *)read_file(argv[0], &sz);
+    txt = realloc(txt, sz + 1); txt[sz] = 0;
+    AsmResult res; memset(&res, 0, sizeof res);
+    NvmModule *m = asm_assemble(txt, &res);
+    if (!m) { printf("FAIL asm line=%u %s\n", res.line, res.message); return 1; }
+    uint32_t n = 0; uint8_t *b = nvm_serialize(m, &n);
+    FILE *f = fopen(argv[1], "wb"); fwrite(b, 1, n, f); fclose(f);
+    printf("OK %u\n", n);
+    return 0;
+}
+
 static int more_main(int argc, char **argv) {
     const char *c = argv[1];
     if (!strcmp(c, "c12")) return cmd_c12(argc - 2, argv + 2);
     if (!strcmp(c, "c13")) return cmd_c13(argc - 2, argv + 2);
     if (!strcmp(c, "optable")) return cmd_optable();
+    if (!strcmp(c, "asm")) return cmd_asm(argc - 2, argv + 2);
     if (!strcmp(c, "c10b")) return cmd_c10b(argc - 2, argv + 2);
     fprintf(stderr, "unknown command %s\n", c);
     return 3;
